@@ -479,6 +479,8 @@ type caseT struct {
 	Engine string `json:"engine"`
 	Config recipe `json:"config"`
 	Steps  []step `json:"steps"`
+	// CLI, when set, makes this a case of TestCLIMounts (cli_test.go); the other fields are unused
+	CLI *cliCase `json:"cli,omitempty"`
 	// filled in when a violation is written out; ignored by replay
 	Observed []string `json:"observed,omitempty"`
 }
@@ -1539,6 +1541,18 @@ func TestReplay(t *testing.T) {
 	var c caseT
 	if _, err := evid.LoadReplay(p, &c); err != nil {
 		t.Fatal(err)
+	}
+	if c.CLI != nil {
+		msg, detail, err := runCLICase(*c.CLI)
+		if err != nil {
+			t.Fatalf("harness: %v", err)
+		}
+		if msg != "" {
+			c.Observed = strings.Split(detail, "\n")
+			evid.Violation("replay", c, "%s", msg)
+			t.Fatal(msg + "\n" + detail)
+		}
+		return
 	}
 	if c.Engine == "" {
 		c.Engine = "interpreter"
